@@ -56,6 +56,17 @@ claim('C19', 'exploration', 'runtime monitor: reference grid with ambiguity mask
       'compared after operations.',
       'models/screen_ref.py is trusted as the reading of the docstrings; undocumented cells are masked.', '5/C19')
 
+claim('C05', 'exploration', 'runtime monitor: deadline oracle on a virtual clock + real-time companions',
+      'Per-call deadline clauses (overall bound, no early TIMEOUT, None, -1, 0) decided on virtual time over generated '
+      'arrival schedules, EINTR storms, four transport classes, six entry points, select/poll; real children for the '
+      'cases virtual time cannot model (trickle, echo, hang-up while alive) with wide margins and serial confirmation.',
+      'Virtual part replaces os.read/select/poll/time of the pexpect modules and scripts ptyprocess liveness; '
+      'timeout=None only up to a horizon.', '5/C05')
+claim('C07', 'exploration', 'runtime monitor: decode-as-a-whole oracle over enumerated and random splittings',
+      'Delivered text (reads, before, logfile_read) equals one-shot decoding of the whole stream for every cut point '
+      '(up to 3 cuts, enumerated for short streams), 13 codecs x 3 error policies, six transports incl. asyncio.',
+      'bytes.decode is the definition; garbage only for codecs whose incremental decoder agrees with one-shot.', '5/C07')
+
 PENDING = {
 }
 
